@@ -7,6 +7,7 @@
 (* Every line is judged; a line the acceptor does not enable is reported and   *)
 (* the acceptor resynchronises at the next "req".                              *)
 EXTENDS ServerPipeline, ObsLib
+CONSTANT KnownDeviations
 
 VARIABLES l, st
 Init == l = 0 /\ st = Idle
@@ -19,7 +20,9 @@ Step(s, o) ==
                           ELSE [next |-> OnHandler(s), v |-> "viol-handler-after-failure"]
     [] o.k = "done" -> [next |-> Idle,
                         v |-> IF ~Generic(s, o) THEN "viol-generic"
-                              ELSE IF ~Classified(s, o) THEN "viol-class-" \o s.cls ELSE "ok"]
+                              ELSE IF Classified(s, o) THEN "ok"
+                              ELSE IF KnownFor(s, o) # "" /\ KnownFor(s, o) \in KnownDeviations THEN "known=" \o KnownFor(s, o)
+                              ELSE "viol-class-" \o s.cls]
 
 Next == /\ l < Len(Obs) /\ l' = l + 1
         /\ LET r == Step(st, Obs[l']) IN st' = r.next /\ Report(l', r.v)
